@@ -1,6 +1,6 @@
 #!/bin/sh
 # regenerate coq/_CoqProject from the files present (Gen/*.v are produced by translate.py first)
-cd "$(dirname "$0")/../coq" || exit 2
+cd "${VERIF_COQ:-$(dirname "$0")/../coq}" || exit 2
 { echo "-Q . ZC"; echo "-arg -w -arg -notation-overridden,-deprecated-hint-without-locality,-deprecated-syntactic-definition,-ambiguous-paths"; find Model Spec Gen Proofs Props Corr -name '*.v' | LC_ALL=C sort; } > _CoqProject.new
 if ! cmp -s _CoqProject.new _CoqProject 2>/dev/null; then mv _CoqProject.new _CoqProject; coq_makefile -f _CoqProject -o Makefile >/dev/null; else rm _CoqProject.new; fi
 [ -f Makefile ] || coq_makefile -f _CoqProject -o Makefile >/dev/null
